@@ -11,6 +11,7 @@ import (
 	"strings"
 	"sync"
 	"sync/atomic"
+	"syscall"
 	"time"
 
 	"github.com/gobuffalo/plush/v5/lexer"
@@ -85,9 +86,10 @@ func (r Res) String() string {
 // ---- hang watchdog -------------------------------------------------------
 
 type watchEntry struct {
-	start time.Time
-	kind  string
-	c     interface{}
+	start   time.Time
+	kind    string
+	c       interface{}
+	cleared int // times a child showed that the case finishes when run alone
 }
 
 const (
@@ -139,6 +141,7 @@ func (r *Run) judgeHang(e *watchEntry) {
 	fmt.Printf("NOTE: a case has been running for %v; re-running it alone in a child: %s\n", hangWall, cand)
 	cmd := exec.Command(os.Args[0], "-test.run", "^TestReplay$", "-test.timeout", "0")
 	cmd.Env = append(os.Environ(), "VERIF_REPLAY_FILE="+cand, "VERIF_REPLAY_CHILD=1")
+	cmd.SysProcAttr = &syscall.SysProcAttr{Pdeathsig: syscall.SIGKILL} // the child never outlives this process
 	done := make(chan error, 1)
 	if err := cmd.Start(); err != nil {
 		fmt.Printf("INCONCLUSIVE: cannot start replay child: %v\n", err)
@@ -147,8 +150,19 @@ func (r *Run) judgeHang(e *watchEntry) {
 	go func() { done <- cmd.Wait() }()
 	select {
 	case <-done:
-		// the child finished on its own: the parent was starved, not hung
-		fmt.Printf("INCONCLUSIVE: slow case finished when run alone (%s)\n", cand)
+		// the child finished on its own: the parent was starved, not hung. Give the case more time; only a case
+		// that is cleared like this again and again makes the run inconclusive.
+		os.Remove(cand)
+		r.wmu.Lock()
+		e.cleared++
+		e.start = time.Now()
+		n := e.cleared
+		r.wmu.Unlock()
+		if n < 5 {
+			fmt.Printf("NOTE: the slow case finished when run alone (machine overloaded?); it gets another %v\n", hangWall)
+			return
+		}
+		fmt.Printf("INCONCLUSIVE: a case is still running after %d x %v although it finishes when run alone (%s)\n", n, hangWall, cand)
 		r.Finish()
 		os.Exit(2)
 	case <-time.After(3 * hangWall):
